@@ -160,6 +160,16 @@ def check_kernel(prop, tier, replay):
     # 4. random walks on long-lived caches
     import fam_kernel_walk
     wstats = fam_kernel_walk.run_walks(prop, tier, res, want)
+    # 5. C02 at system level: in running controllers / filter subscriptions every cache mutation's events are judged
+    #    in situ, what the controller publishes must be exactly what its cache computed, and it must reach the
+    #    root subscription in that order
+    sysstats = None
+    if prop == "C02":
+        import fam_tree
+        sys_want = fam_tree.KERNEL | {"ctl-events-differ", "fsub-events-differ", "fsub-emits-other", "order-in", "events-not-emitted", "crash"}
+        nscen, tlines, tsamples, _ = fam_tree.run_tree(prop, tier, res, sys_want, [("mixed", 0.5), ("refilter", 0.5)], 96 if tier == "quick" else 1200)
+        sysstats = {"scenarios": nscen, "trace_lines": tlines}
+        total += nscen
     res.coverage = {
         "states": dist, "transitions": gen,
         "traces_validated_against_impl": total + extra + wstats["walks"],
@@ -170,7 +180,7 @@ def check_kernel(prop, tier, replay):
         "rule": "every (filter, content) state of the universe x every operation (sync/refilter with every list of length <= %d, create/update/delete with every object) executed on the real cache actor; non-trivial = the operation emitted at least one event; plus %d random walks (%d steps) over a 4-key universe on long-lived caches" % (u["maxlist"], wstats["walks"], wstats["steps"]),
         "universe": u,
         "go_states": nstates,
-        "walks": wstats,
+        "walks": wstats, "system_level": sysstats,
         "checker_cmd": "tlc MCCache.tla; tlc trace/CacheRecords.tla; tlc trace/CacheWalk.tla",
     }
     res.assumptions = [
